@@ -276,6 +276,58 @@ def check_c02(ctx):
     ctx.assumptions.append("the key hash is murmur3-64 (used only to find keys for every residue); empty hash keys are random by design and excluded")
 
 
+def check_c09(ctx):
+    q = ctx.tier == "quick"
+    mc = {"SUBS": "", "RELOADS": 2, "TOUCH": 1} if q else {"SUBS": ', "s2"', "RELOADS": 2, "TOUCH": 1}
+    ctx.cov["constants"]["MC_Reload"] = mc
+    ctx.tlc_must_pass("Balancer", "Reload", "MC_Reload.cfg", defines=mc, timeout=2400)
+    g = {"RELOADS": 4, "TOUCH": 4, "OPS": 12}
+    r = ctx.tlc("Balancer", "GenReload", "Gen_Reload.cfg", mode="sim", sim_num=150 if q else 3000, sim_depth=16,
+                defines=g, timeout=1800, count=False)
+    if not r.ok or not r.cases:
+        raise vlib.MachineryError("GenReload failed: %s %s" % (r.error or r.violation, r.out[-400:]))
+    cases = r.cases
+    run_reload(ctx, cases)
+    ctx.cov["rule"] = ("cases = TLC-simulated reload histories of Reload.tla (2 clusters x 2 sub-clusters x 3 backends; "
+                       "adds, removes, renames = remove+add, state changes, selections); replayed through gslb.data / "
+                       "cluster_table.data files, BalTable.Init, BalTableConfLoad and BalTableReload; every snapshot "
+                       "(object identity, avail, conn, close channel) is validated by TLC (TraceReload) against Layer P. "
+                       "distinct = distinct histories with at least one reload.")
+    ctx.assumptions.append("gslb.data and cluster_table.data are consistent (every sub-cluster of gslb.data has an entry in cluster_table.data)")
+
+
+def run_reload(ctx, cases):
+    for i, c in enumerate(cases):
+        c["id"] = i + 1
+    res = ctx.harness("balancer", ["reload-run"], cases=cases, timeout=900)
+    events = [x for x in res if "ev" in x]
+    summ = [x for x in res if x.get("summary")]
+    if not summ or summ[0]["cases"] != len(cases) or any("_harness_exit" in x for x in res):
+        raise vlib.MachineryError("reload-run died: %s" % res[-2:])
+    details = {}
+    for i, e in enumerate(events):
+        for k in ("detail", "err", "missing"):
+            if k in e:
+                details[i + 1] = e.pop(k)
+    trace = "".join(json.dumps(e, separators=(",", ":")) + "\n" for e in events)
+    r = ctx.tlc("Balancer", "TraceReload", "TraceReload.cfg", mode="trace", timeout=1500,
+                extra_files={"trace.ndjson": trace}, count=False)
+    rep = [c for c in r.cases if c.get("done")]
+    if not r.ok or not rep or rep[0]["consumed"] != len(events):
+        raise vlib.MachineryError("TraceReload did not complete: %s %s" % (r.error or r.violation, r.out[-800:]))
+    by_id = {c["id"]: c for c in cases}
+    for b in rep[0]["bad"]:
+        c = by_id[b["cid"]]
+        ev = events[b["l"] - 1]
+        sig = "%s/%s" % (b["why"], ev["ev"])
+        ctx.report(sig, "event #%d %s %s" % (b["l"], str(ev)[:500], details.get(b["l"], "")),
+                   case={"ops": c["ops"]}, harness="balancer", cmd="reload-run")
+    ctx.traces(len(cases))
+    for c in cases:
+        ctx.count(c["ops"], nontrivial=any(o["op"] == "reload" for o in c["ops"]))
+    ctx.sample({"history": cases[0]["ops"][:6], "recorded": events[:3]})
+
+
 def check_c04(ctx):
     check_all(ctx, {"ReplyOK", "unknown-backend"}, "C04")
 
@@ -284,10 +336,15 @@ def check_c05(ctx):
     check_all(ctx, {"panic", "hang"}, "C05")
 
 
-PROPS = {"C02": check_c02, "C01": check_c01, "C03": check_c03, "C04": check_c04, "C05": check_c05}
+PROPS = {"C09": check_c09, "C02": check_c02, "C01": check_c01, "C03": check_c03, "C04": check_c04, "C05": check_c05}
 
 
 def replay(ctx, pid, rep):
+    if rep.get("cmd") == "reload-run":
+        run_reload(ctx, [rep["case"]])
+        rc = ctx.finish()
+        print("replay: %s" % ("violation reproduced" if rc == 1 else "no violation on the current tree"))
+        return rc
     if rep.get("cmd") in ("gslb-run", "sticky-run"):
         res = ctx.harness("balancer", [rep["cmd"]], cases=[rep["case"]], timeout=600)
         for x in res:
